@@ -1729,16 +1729,23 @@ class Flattener(object):
             new_loop = ast.copy_location(ast.For(target=target, iter=g.iter, body=body, orelse=[], type_comment=None), s)
             ast.fix_missing_locations(new_loop)
             return self.desugar([new_loop])
-        # a loop over a short literal tuple of constants is its unrolling
+        # a loop over a short literal tuple of constants (or of rows of constants, unpacked by the target) is its unrolling
         if isinstance(s, ast.For) and isinstance(s.iter, (ast.Tuple, ast.List)) and 0 < len(s.iter.elts) <= 8 and not s.orelse and \
-                all(isinstance(e, ast.Constant) for e in s.iter.elts) and isinstance(s.target, ast.Name) and \
-                not _contains(s.body, (ast.Break, ast.Continue)) and s.target.id not in _stored_names(ast.Module(body=s.body, type_ignores=[])):
-            out = []
-            for e in s.iter.elts:
-                for st in s.body:
-                    out.append(_Subst({s.target.id: e}, {}).visit(clone(st)))
-            self.desugared += 1
-            return self.desugar(out)
+                not _contains(s.body, (ast.Break, ast.Continue)):
+            rows = None
+            if isinstance(s.target, ast.Name) and all(isinstance(e, ast.Constant) for e in s.iter.elts):
+                rows = [{s.target.id: e} for e in s.iter.elts]
+            elif isinstance(s.target, (ast.Tuple, ast.List)) and all(isinstance(t_, ast.Name) for t_ in s.target.elts) and \
+                    all(isinstance(e, (ast.Tuple, ast.List)) and len(e.elts) == len(s.target.elts) and
+                        all(isinstance(c_, ast.Constant) for c_ in e.elts) for e in s.iter.elts):
+                rows = [dict(zip([t_.id for t_ in s.target.elts], e.elts)) for e in s.iter.elts]
+            if rows is not None and not (set(rows[0]) & _stored_names(ast.Module(body=s.body, type_ignores=[]))):
+                out = []
+                for row in rows:
+                    for st in s.body:
+                        out.append(_Subst(dict(row), {}).visit(clone(st)))
+                self.desugared += 1
+                return self.desugar(out)
         # if T[a if c else b]: X else: Y    ==>    if c: (if T[a]: X else: Y) else: (if T[b]: X else: Y)
         # when everything T evaluates before the conditional expression is a constant or a name
         if isinstance(s, ast.If):
